@@ -12,7 +12,7 @@ env = dict(os.environ, GOFLAGS="-mod=mod", GOPROXY="off")
 env.pop("GOSUMDB", None)
 def run(cmd, **kw):
     r = subprocess.run(cmd, cwd=wt, env=env, capture_output=True, text=True, **kw)
-    return r.returncode, (r.stdout + r.stderr)[-1500:]
+    return r.returncode, (r.stdout + r.stderr)[-20000:]
 subprocess.run(["git", "-C", "/repo", "worktree", "remove", "--force", wt], capture_output=True)
 subprocess.run(["git", "-C", "/repo", "worktree", "add", "--detach", wt, "HEAD"], check=True, capture_output=True)
 res = {}
@@ -23,7 +23,7 @@ try:
     if rc:
         # timing-sensitive tests (raft elections) fail under machine load: re-run only the failing packages, alone
         import re
-        pk = re.findall(r"^FAIL\s+(\S+)\s", out, re.M)
+        pk = [x for x in re.findall(r"^FAIL\s+(\S+)\s", out, re.M) if "/" in x]
         res["existing_tests_first_run_failed_pkgs"] = pk
         rc = 0
         for p_ in pk:
@@ -35,7 +35,7 @@ try:
             if not ok:
                 rc = 1; out = o2
     res["existing_tests_pass_with_change"] = rc == 0
-    if rc: res["existing_tests_out"] = out
+    if rc: res["existing_tests_out"] = out[-1500:]
     demo_dst = os.path.join(wt, meta["demo_path"])
     shutil.copy(os.path.join(d, meta["demo_file"]), demo_dst)
     rc, out = run(["go", "test", "-vet=off", "-count=1"] + meta["demo_run"], timeout=900); res["demo_fails_with_change"] = rc != 0; res["demo_with_out"] = out[-600:]
